@@ -524,6 +524,7 @@ func (e *Enc) resolveModifies(spec *FuncSpec, names map[string]Val, pre *Heap) (
 func (e *Enc) havocModifies(spec *FuncSpec, names map[string]Val, pre, post *Heap, hint string) {
 	whole, cells := e.resolveModifies(spec, names, pre)
 	var wholeNew []string
+	var cellVars [][2]string
 	defer func() {
 		for _, n := range wholeNew {
 			e.assumeClosure(n, post.m[n], post.alloc)
@@ -544,7 +545,22 @@ func (e *Enc) havocModifies(spec *FuncSpec, names map[string]Val, pre, post *Hea
 		compSort := strings.TrimSuffix(strings.TrimPrefix(c.sort, "(Array Int "), ")")
 		nv := e.fresh(c.arr+"!cell", compSort)
 		e.hset(post, c.arr, c.sort, store(H, c.ref, nv), c.ref)
+		if compSort == "Int" {
+			cellVars = append(cellVars, [2]string{c.arr, nv})
+		}
 	}
+	// a havoced cell still holds a value of its type: slice/map lengths are non-negative, references point to
+	// allocated objects (or are nil) in the post-state
+	defer func() {
+		for _, cv := range cellVars {
+			if d, ok := refArrReg.Load(cv[0]); ok && d.(int) == 1 {
+				e.assume("true", and(sx("<=", "0", cv[1]), sx("<=", cv[1], post.alloc)))
+			}
+			if d, ok := lenArrReg.Load(cv[0]); ok && d.(int) == 1 {
+				e.assume("true", sx(">=", cv[1], "0"))
+			}
+		}
+	}()
 	if spec.Allocs {
 		na := e.fresh("alloc", "Int")
 		e.assume("true", sx(">=", na, pre.alloc))
